@@ -597,6 +597,24 @@ def _optimizer_construction(ctx, rid, repo):
             w = World({"__strict__": True, ".migrad": migrad, ".hesse": lambda r_, a, k: None, ".correlation": lambda r_, a, k: Obj("CORR"), "OptimizeResult": lambda a, k: Obj("RESULT", dict(k))},
                       module_env={"exceptions": Obj("exceptions"), "scipy": Obj("scipy"), "iminuit": Obj("iminuit"), "log": Obj("log")})
             w.add_class(mixin).add_class(cls)
+
+            def default_fit(world):
+                """a default-constructed optimizer of this class in `world`, one default fit: what the solver is configured with"""
+                d_inst = world.new(cls, [], {})
+                n0 = len(rec)
+                if probe == "scipy":
+                    d_solver = PyFunc(lambda a, k, rec=rec: (rec.append({"tol": k.get("tol"), "maxiter": (k.get("options") or {}).get("maxiter"), "options": sorted((k.get("options") or {})), "disp": (k.get("options") or {}).get("disp")}) or Obj("RESULT")), "minimizer")
+                    world.call_method(d_inst, "_minimize", [d_solver, Obj("FUNC"), [at("x0"), at("x1")]], {"do_grad": False, "bounds": [(at("l0"), at("h0")), (at("l1"), at("h1"))], "fixed_vals": [], "options": {}})
+                else:
+                    d_min = Obj("MINUIT", {"valid": True, "fmin": Obj("fmin"), "covariance": Obj("COV"), "errors": Obj("ERR"), "values": Obj("VALUES"), "fval": at("FVAL"), "nfcn": c(10), "ngrad": c(0)})
+                    world.call_method(d_inst, "_minimize", [d_min, Obj("FUNC"), [at("x0"), at("x1")]], {"do_grad": False, "bounds": Obj("BOUNDS"), "fixed_vals": [], "options": {}})
+                shown = {k_: (v_ if isinstance(v_, (bool, list)) or v_ is None else str(to_poly(v_))) for k_, v_ in rec[n0].items()}
+                shown.update({k_: (None if d_inst.attrs.get(k_) is None else str(to_poly(d_inst.attrs.get(k_)))) for k_ in ("errordef", "steps") if k_ in d_inst.attrs})
+                return shown
+
+            w_fresh = World(dict(w.base), module_env=dict(w.module_env))
+            w_fresh.add_class(mixin).add_class(cls)
+            fresh_default = default_fit(w_fresh)
             inst = w.new(cls, [], dict(given))
             if probe == "scipy":
                 solver = PyFunc(lambda a, k, rec=rec: (rec.append({"tol": k.get("tol"), "maxiter": (k.get("options") or {}).get("maxiter"), "ftol": (k.get("options") or {}).get("ftol"), "disp": (k.get("options") or {}).get("disp")}) or Obj("RESULT")), "minimizer")
@@ -616,6 +634,13 @@ def _optimizer_construction(ctx, rid, repo):
                 ctx.violated(rid, cls.methods["__init__"], f"{cname}: option `{opt_name}` given to the constructor", f"an optimizer constructed with `{opt_name}` = {given.get(opt_name)} runs its fits with {what} = {got.get(what, inst.attrs.get(what))}: the setting is overwritten or dropped on the way through the constructor chain (class, then OptimizerMixin), so the fit stops at another tolerance / iteration limit than the user configured", expected=str(want), found=str(got))
             else:
                 ctx.holds(rid, site, f"solver configured with {want}")
+            # HISTORY: a default-constructed optimizer made AFTER the customised one (same process) fits like one made in a fresh process
+            later_default = default_fit(w)
+            if later_default != fresh_default:
+                diff = sorted(k_ for k_ in set(later_default) | set(fresh_default) if later_default.get(k_) != fresh_default.get(k_))
+                ctx.violated(rid, cls.methods["__init__"], f"{cname}() constructed after {cname}({', '.join(given)})", f"a default-constructed optimizer inherits `{diff[0]}` = {later_default.get(diff[0])} from an optimizer constructed EARLIER in the process with other settings (a fresh process gives {fresh_default.get(diff[0])}): the settings are kept in a container shared by all instances", expected=str(fresh_default), found=str(later_default))
+            else:
+                ctx.holds(rid, f"{OPT}{rel}::{cname}() after {cname}(<every option>) in one process", f"fits like a default optimizer of a fresh process: {fresh_default}")
         except RaisedInFragment as e:
             ctx.violated(rid, cls.methods["__init__"], f"{cname} construction", f"raises {e.exc_name} on documented options")
         except errs as e:
